@@ -239,7 +239,7 @@ FaultExpr(k) ==
 ExpectedKind(k) == IF k \in {"ArityMany", "ArityFew", "ArityPrim"} THEN "Arity"
                    ELSE IF k \in {"UnboundRead", "UnboundAssign"} THEN "Unbound" ELSE k
 Bump == Set("s", Call("+", <<Var("s"), Num(1)>>))
-FaultContexts == {"direct", "nontail", "tail", "tailif", "apply", "map", "foreach", "foldl", "operand", "derived", "nested2"}
+FaultContexts == {"direct", "nontail", "tail", "tailif", "tailsame", "selftail", "apply", "map", "foreach", "foldl", "operand", "derived", "nested2"}
 \* <<definitions needed, the faulting top-level form>>
 InFaultContext(c, F) ==
   CASE c = "direct"  -> <<<<>>, Begin(<<Bump, F>>)>>
@@ -248,6 +248,13 @@ InFaultContext(c, F) ==
                           Call("g", <<>>)>>
     [] c = "tailif"  -> <<<<Define("h", Lam(<<"q">>, "", <<>>, <<Bump, If3(Var("q"), F, Num(0))>>)),
                             Define("g", Lam(<<>>, "", <<>>, <<Call("h", <<Num(1)>>)>>))>>, Call("g", <<>>)>>
+    \* the tail call leaves a procedure whose parameter list is spelled exactly like the callee's (one: (z)); and a
+    \* procedure that reaches the fault in a tail call from itself
+    [] c = "tailsame" -> <<<<Define("h", Lam(<<"z">>, "", <<>>, <<Bump, F>>)), Define("g", Lam(<<"z">>, "", <<>>, <<Call("h", <<Var("z")>>)>>))>>,
+                           Call("g", <<Num(1)>>)>>
+    [] c = "selftail" -> <<<<Define("h", Lam(<<"z">>, "", <<>>, <<If3(Call("=", <<Var("z"), Num(0)>>), Begin(<<Bump, F>>),
+                                                                      Call("h", <<Call("-", <<Var("z"), Num(1)>>)>>))>>))>>,
+                           Call("h", <<Num(2)>>)>>
     [] c = "apply"   -> <<<<>>, Call("apply", <<Lam(<<"q">>, "", <<>>, <<Bump, F>>), Quote(MkList(<<MkInt(1)>>))>>)>>
     [] c = "map"     -> <<<<>>, Call("map", <<Lam(<<"q">>, "", <<>>, <<Bump, F>>), Quote(MkList(<<MkInt(1), MkInt(2)>>))>>)>>
     [] c = "foreach" -> <<<<>>, Call("for-each", <<Lam(<<"q">>, "", <<>>, <<Bump, F>>), Quote(MkList(<<MkInt(1), MkInt(2)>>))>>)>>
